@@ -23,14 +23,16 @@ type Obligation struct {
 	Goal  string // closed formula to prove (already includes the path condition)
 	Src   string
 	// filled by the solver stage
-	Status string
-	Solver string
-	Secs   float64
-	Model  string
-	Dead   bool
-	Except string  // known finding: Bool term describing the recorded failing inputs
-	Clause *Clause // post obligations: the ensures clause
-	Stage  int     // solving stage that decided the obligation (1, 2: sliced; 3: full abstract; 4: full exact)
+	Status     string
+	Solver     string
+	Secs       float64
+	Model      string
+	Dead       bool
+	Except     string  // known finding: Bool term describing the recorded failing inputs
+	Clause     *Clause // post obligations: the ensures clause
+	Cross      int     // thorough tier: solvers the proved query was cross-checked with
+	CrossAgree int     // ... of which answered unsat as well (the others ran out of time)
+	Stage      int     // solving stage that decided the obligation (1, 2: sliced; 3: full abstract; 4: full exact)
 }
 
 // Exec is the verification-condition generator state for one function under verification.
